@@ -694,6 +694,10 @@ pub fn orchestrate(prop: &dyn Property, tier: Tier) -> i32 {
             let b = run_single(id, tier, v.idx);
             match (a, b) {
                 (Ok(a), Ok(b)) => {
+                    // compare the signatures (messages may contain volatile details such as
+                    // thread ids of a crashed child process)
+                    let a: Vec<String> = a.into_iter().map(|x| x.0).collect();
+                    let b: Vec<String> = b.into_iter().map(|x| x.0).collect();
                     if a != b || a.is_empty() {
                         eprintln!(
                             "MACHINERY-ERROR: violation of case {} does not replay deterministically: {:?} vs {:?}",
